@@ -36,7 +36,10 @@ pub struct C13 {
 }
 
 const DEVKINDS: [&str; 6] = ["delete line", "duplicate line", "swap with next line", "delete token", "replace number by 0", "replace number by -1"];
-const SUBSTANCE_FILES: [&str; 14] = [
+const SUBSTANCE_FILES: [&str; 17] = [
+    "m !meter\nlump 3 m\nfoo {\n  lump const weight 5 m\n  broken const y 1 nothing\n}\nheap 2 lump\n",
+    "m !meter\nfoo {\n  p const q 5 m\n  r const t 0 m\n}\nq 7 m\n",
+    "m !meter\nfoo {\n  density a 2 m / b 1 m\n  other c 1 m / d nothing\n}\na 9 m\n",
     "m !meter\nfoo {\n  mass const foo_mass 0 m\n}\n",
     "m !meter\nfoo {\n  density a 0 m / b 1 m\n}\n",
     "m !meter\nfoo {\n  density a 1 m / b 0 m\n}\n",
@@ -284,6 +287,15 @@ fn collect(e: &rink_core::ast::Expr, out: &mut Vec<String>) {
 /// After any load the context must still answer queries.
 fn canaries(ctx: &mut Context, extra: &[&str]) -> Vec<(String, String)> {
     let mut bad = vec![];
+    // small contexts only (the Debug form of a full database is ~0.5 MB): scratch entries of a
+    // rejected definition must not survive the load, they would shadow real names
+    if ctx.registry.units.len() < 50 {
+        let dbg = format!("{:?}", ctx);
+        if !dbg.contains("temporaries: {}") {
+            let at = dbg.find("temporaries:").unwrap_or(0);
+            bad.push(("scratch entries of a definition survive the load".to_string(), engine::util::clip(&dbg[at..], 200)));
+        }
+    }
     match eval_q(ctx, "1 + 1") {
         Ok(r) => {
             let s = r.to_string();
@@ -411,7 +423,7 @@ impl Space for C13 {
         out
     }
     fn time_limit(&self, _idx: u64) -> std::time::Duration {
-        std::time::Duration::from_secs(20)
+        std::time::Duration::from_secs(60)
     }
     fn abnormal(&self, idx: u64, kind: Abnormal, info: &str) -> Option<Violation> {
         Some(Violation {
